@@ -376,6 +376,14 @@ func extractC08(c *Ctx) error {
 	c.P("(* x/paloma/keeper CreateLightNodeClientAccount: definitions of the local time.Time variables and what they are used for *)")
 	c.P("Definition vesting_period_shape : list string := %s.", CoqStrList(vs))
 	c.Info("vesting_period_shape", vs)
+	// round 7: the premise of the VerifyEvidence classification (one piece of evidence per validator) lives in AddEvidence
+	er, err := c08EvidenceReplaceRule(c)
+	if err != nil {
+		return err
+	}
+	c.P("(* x/consensus/types QueuedSignedMessage.AddEvidence: the loop that replaces earlier evidence and what follows it; a replace condition other than the validator address alone is \"unknown:...\" *)")
+	c.P("Definition evidence_replace_rule : list string := %s.", CoqStrList(er))
+	c.Info("evidence_replace_rule", er)
 	c.Info("jail_missing_loop", jl)
 	c.Info("sites", len(sites))
 	c.Info("by_kind", byKind)
@@ -1719,4 +1727,64 @@ func c08VestingShape(c *Ctx, pkgs []*packages.Package) ([]string, error) {
 		}
 	}
 	return nil, fmt.Errorf("x/paloma/keeper Keeper.CreateLightNodeClientAccount not found")
+}
+
+// c08EvidenceReplaceRule reads QueuedSignedMessage.AddEvidence (x/consensus/types/consensus.go).  Understood: a nil-guard
+// `if q.Evidence == nil {...}`, ONE loop over q.Evidence whose body is a single `if <elem>.ValAddress.Equals(data.ValAddress)
+// { <elem>.Proof = data.Proof; return }`, then `q.Evidence = append(q.Evidence, &data)`.  Everything else — in particular a
+// replace condition with any further conjunct — is printed as "unknown:<source>".
+func c08EvidenceReplaceRule(c *Ctx) ([]string, error) {
+	f, err := c.Parse("x/consensus/types/consensus.go")
+	if err != nil {
+		return nil, err
+	}
+	fd := FindFunc(f, "QueuedSignedMessage", "AddEvidence")
+	if fd == nil || fd.Body == nil {
+		return nil, fmt.Errorf("QueuedSignedMessage.AddEvidence not found")
+	}
+	norm := func(n ast.Node) string { return c08Ascii(strings.Join(strings.Fields(c.Src(n)), " ")) }
+	var out []string
+	for _, st := range fd.Body.List {
+		switch x := st.(type) {
+		case *ast.IfStmt:
+			if norm(x.Cond) == "q.Evidence == nil" && x.Else == nil {
+				out = append(out, "init-if-nil")
+				continue
+			}
+			out = append(out, "unknown:"+norm(x))
+		case *ast.ForStmt, *ast.RangeStmt:
+			var body *ast.BlockStmt
+			hdr := ""
+			if r, ok := x.(*ast.RangeStmt); ok {
+				body, hdr = r.Body, "range "+norm(r.X)
+			} else {
+				fs := x.(*ast.ForStmt)
+				body, hdr = fs.Body, "for"
+			}
+			if len(body.List) != 1 {
+				out = append(out, "unknown:"+norm(st))
+				continue
+			}
+			is, ok := body.List[0].(*ast.IfStmt)
+			if !ok || is.Init != nil || is.Else != nil {
+				out = append(out, "unknown:"+norm(st))
+				continue
+			}
+			cond := norm(is.Cond)
+			if cond != "q.Evidence[i].ValAddress.Equals(data.ValAddress)" {
+				out = append(out, "unknown:replace-if "+cond)
+				continue
+			}
+			var bs []string
+			for _, b := range is.Body.List {
+				bs = append(bs, norm(b))
+			}
+			out = append(out, hdr+": if same-validator { "+strings.Join(bs, "; ")+" }")
+		case *ast.AssignStmt:
+			out = append(out, norm(x))
+		default:
+			out = append(out, "unknown:"+norm(st))
+		}
+	}
+	return out, nil
 }
